@@ -88,6 +88,8 @@ pub struct NetCfg {
     #[serde(default)]
     pub api_buf: usize,
     #[serde(default)]
+    pub udp_port_reuse: u32,
+    #[serde(default)]
     pub udp_icmp: bool,
 }
 
@@ -284,6 +286,7 @@ pub async fn boot() -> Option<i32> {
         spawn_yield: plan.net.spawn_yield,
         lock_yield: plan.net.lock_yield,
         api_buf: plan.net.api_buf,
+        udp_port_reuse: plan.net.udp_port_reuse,
         udp_icmp: plan.net.udp_icmp,
         ..Default::default()
     };
